@@ -86,6 +86,7 @@ def gen_channel(rng, bnodes):
     if tr == "zip" and rng.random() < 0.5:
         # members stored under folders of the archive (zip -r / shutil.make_archive layout), no directory entries
         ch["member_dirs"] = [rng.choice(["", "data/", "data/more/", "x/"]) for _ in range(4)]
+        ch["dir_entries"] = rng.random() < 0.5
     return ch
 
 
@@ -218,8 +219,12 @@ def build_channel(sim, triples, ch, tag):
     elif tr == "zip":
         p = sim.path("%s.zip" % tag)
         with zipfile.ZipFile(p, "w") as z:
+            if ch.get("dir_entries") and fmt in ("nt", "tsv_spo", "turtle_iter"):
+                z.writestr("data/", "")         # folder entries as `zip -r` writes them (empty members: no statements)
             for i, d in enumerate(docs):
                 z.writestr((ch.get("member_dirs") or [""] * 4)[i % 4] + "m%d.%s" % (i, ext), d)
+            if ch.get("dir_entries") and fmt in ("nt", "tsv_spo", "turtle_iter"):
+                z.writestr("__MACOSX/", "")
         kw["compression_mode"] = "zip"
         kw["graph_file_input"] = p
     elif tr == "zips":
